@@ -36,6 +36,9 @@ func buildMarshalCase(k *MarshalCase) (reflect.Type, reflect.Value) {
 	return t, v
 }
 
+// otherValue is marshalled between producing and examining an output (buffer re-use across calls).
+var otherValue = map[string]interface{}{"zzzzzzzzzzzzzzzz": []int{7, 8, 9, 10, 11, 12}, "yyyyyyyy": "................................................................"}
+
 var encNames = []string{"MarshalText(value)", "MarshalText(pointer)", "MarshalBinary(value)", "MarshalBinary(pointer)", "MarshalBinaryLST", "Encoder stream (text)", "Encoder stream (binary)"}
 
 // runMarshalEnc runs one encoding path; "" when the property holds.
@@ -93,6 +96,14 @@ func runMarshalEnc(t reflect.Type, v reflect.Value, enc int, k *MarshalCase) (ve
 		return "Marshal failed on a supported shape: " + err.Error()
 	}
 	k.Output = showInput(binary, out)
+	// (0) the bytes returned belong to the caller: later calls must not change them
+	saved := append([]byte{}, out...)
+	ion.MarshalText(otherValue)
+	ion.MarshalBinary(otherValue)
+	ion.MarshalText(v.Interface())
+	if !bytes.Equal(out, saved) {
+		return "the bytes returned by Marshal changed when Marshal was called again"
+	}
 	// (1) the bytes denote the Ion image of the value
 	var got []*model.Value
 	if binary {
@@ -220,6 +231,70 @@ func runC16(c *Ctx) {
 			c.Sample(map[string]interface{}{"go_type": k.Type, "go_value": k.Value, "encodings": encNames})
 		}
 	})
+	// values in which one pointer is reachable twice (no cycle): each occurrence is just a value
+	shared := sharedPointerValues()
+	c.Parallel(len(shared), func(w, i int) {
+		v := reflect.ValueOf(shared[i])
+		t := v.Type()
+		for enc := 0; enc < len(encNames); enc++ {
+			kk := MarshalCase{CaseSeed: int64(i), Type: trunc200(t.String()), Value: trunc200(fmt.Sprintf("%+v", shared[i])), Enc: encNames[enc]}
+			c.Eval(1)
+			c.NonTrivial(fmt.Sprintf("shared|%d|%d", i, enc))
+			if verdict := runMarshalEnc(t, v, enc, &kk); verdict != "" {
+				c.Violate("marshal-shared-pointers", kindShape(t, 0)+":"+Class(verdict), fmt.Sprintf("type=%s value=%s via %s output=%s :: %s", kk.Type, kk.Value, kk.Enc, kk.Output, verdict), kk, nil)
+			}
+		}
+	})
+	c.Obs("shared_pointer_values", int64(len(shared)))
+}
+
+type spAddr struct {
+	Street string `ion:"street"`
+	No     int    `ion:"no"`
+}
+type spOrder struct {
+	ID       int     `ion:"id"`
+	Billing  *spAddr `ion:"billing"`
+	Shipping *spAddr `ion:"shipping"`
+	Notes    []*string
+}
+type spNode struct {
+	V    int     `ion:"v"`
+	Next *spNode `ion:"next,omitempty"`
+	Kids []*spNode
+}
+type spEmpty struct{}
+
+func sharedPointerValues() []interface{} {
+	home := &spAddr{"Main St", 7}
+	n := 5
+	s := "note"
+	leaf := &spNode{V: 3}
+	e := &spEmpty{}
+	return []interface{}{
+		spOrder{ID: 7, Billing: home, Shipping: home, Notes: []*string{&s, &s, &s}},
+		&spOrder{ID: 8, Billing: home, Shipping: home},
+		[]*int{&n, &n},
+		[2]*int{&n, &n},
+		map[string]*spAddr{"from": home, "to": home},
+		spNode{V: 1, Next: leaf, Kids: []*spNode{leaf, leaf, {V: 4, Next: leaf}}},
+		[]*spEmpty{e, e, &spEmpty{}},
+		struct {
+			A, B *spEmpty
+			C    **int
+			D    **int
+		}{e, e, func() **int { p := &n; return &p }(), func() **int { p := &n; return &p }()},
+		// a long chain is not a cycle either
+		func() *spNode {
+			head := &spNode{V: 0}
+			cur := head
+			for i := 1; i < 200; i++ {
+				cur.Next = &spNode{V: i}
+				cur = cur.Next
+			}
+			return head
+		}(),
+	}
 }
 
 func init() {
